@@ -399,3 +399,21 @@ V('C10', 'c10v-param-renamed', [(CTL, "    def connection_got_new_message(self, 
   "    def connection_got_new_message(self, conn: Connection, msg: wl.Message) -> None:\n        '''Overrides method in Connection.Listener'''\n        self.all_messages.append(msg)\n        if self.current_connection is None or conn == self.current_connection:\n            if self.display_matcher.matches(msg):\n                self._show_message(msg)\n            if self.stop_matcher.matches(msg):\n                self.out.show(color(alert_color, '    Stopped at ') + str(msg).strip())")])
 V('C02', 'c02v-param-renamed', [(CI, "    def create_object(self, time: float, parent: wl.ObjectBase, obj_id: int, type_name: str) -> wl.ObjectBase:\n        '''Overrides method in Connection'''\n        if obj_id <= 1:\n            raise RuntimeError('Invalid object ID ' + str(obj_id))\n        if obj_id in self.db:\n            last_obj = self.db[obj_id][-1]",
   "    def create_object(self, time: float, parent: wl.ObjectBase, oid: int, type_name: str) -> wl.ObjectBase:\n        '''Overrides method in Connection'''\n        obj_id = oid\n        if obj_id <= 1:\n            raise RuntimeError('Invalid object ID ' + str(obj_id))\n        if obj_id in self.db:\n            last_obj = self.db[obj_id][-1]")])
+
+# ---- later additions -------------------------------------------------------------------------------
+M('C19', 'c19-single-dash-len', [(AF, "    return s.startswith('-') and len(s) > 1 and s[1] != '-'", "    return s.startswith('-') and len(s) > 2 and s[1] != '-'")], 'C19.1')
+M('C19', 'c19-strip-one-dash', [(AF, "    while s.startswith('-'):\n        s = s[1:]\n    return s", "    if s.startswith('-'):\n        s = s[1:]\n    return s")], 'C19.1')
+M('C19', 'c19-cluster-anywhere', [(AF, "                    if args[i].endswith(_strip_dashes(alias)):", "                    if _strip_dashes(alias) in args[i]:")], 'C19.1')
+M('C13', 'c13-single-dash-len', [(AF, "    return s.startswith('-') and len(s) > 1 and s[1] != '-'", "    return s.startswith('-') and len(s) > 2 and s[1] != '-'")], 'C13.3')
+M('C02', 'c02-type-check-inverted', [(CI, "            (not str_matcher(type_name).matches(obj.type))\n", "            (str_matcher(type_name).matches(obj.type))\n")], 'C02.3')
+M('C01', 'c01-skip-first-piece', [(PARSE, "    return tuple(argument(p, s) for s in str_list)", "    return tuple(argument(p, s) for s in str_list[1:])")], 'C01.13')
+M('C10', 'c10-subcommand-drops-arg', [(PLG, "        self.plugin.invoke_command(self.command + ' ' + arg)", "        self.plugin.invoke_command(self.command)")], 'C10.4')
+M('C08', 'c08-display-drops-last-arg', [(MSG, "color(symbol_color, ', ').join([str(i) for i in self.args]) + color(symbol_color, ')')", "color(symbol_color, ', ').join([str(i) for i in self.args[:-1]]) + color(symbol_color, ')')")], 'C08.7')
+M('C08', 'c08-arrow-inverted', [(MSG, "            (color(symbol_color, '→ ') if self.sent else '') +", "            (color(symbol_color, '→ ') if not self.sent else '') +")], 'C08.7')
+M('C07', 'c07-name-prefix-always', [(ARG, "            if self.name is not None:\n                return color(symbol_color, self.name + '=') + self.value_to_str()\n            else:\n                return self.value_to_str()", "            return self.value_to_str()")], 'C07.9')
+M('C07', 'c07-first-label-only', [(ARG, "color(int_symbol_color, '&').join([color(int_color, i) for i in self.labels])", "color(int_color, self.labels[0])")], 'C07.9')
+M('C14', 'c14-destroyed-shadows-self', [(MAT, "        if (self.match_destroyed and\n            message.destroyed_obj is not None and\n            self.obj_matcher.matches(message.destroyed_obj)\n        ):\n            return True", "        if self.match_destroyed and message.destroyed_obj is not None:\n            return self.obj_matcher.matches(message.destroyed_obj)")], 'C14.4')
+M('C14', 'c14-new-needs-name', [(MAT, "                if isinstance(arg, wl.Arg.Object) and arg.is_new and self.obj_matcher.matches(arg.obj):", "                if isinstance(arg, wl.Arg.Object) and self.obj_matcher.matches(arg.obj):")], 'C14.4')
+M('C06', 'c06-selection-cleared-on-typo', [(CTL, "            connection = self._get_connection(arg)\n            if connection is not None:\n                self.current_connection = connection\n", "            connection = self._get_connection(arg)\n            self.current_connection = connection\n            if connection is not None:\n")], 'C06.4')
+M('C13', 'c13-run-mode-utf8', [(RUN, "os.fdopen(readable, 'r', errors='backslashreplace')", "os.fdopen(readable, 'r', encoding='utf-8', errors='backslashreplace')")], 'C13.1')
+V('C14', 'c14v-pattern-single-return', [(MAT, "        if not self.obj_matcher.matches(message.obj):\n            return False\n        if not self.name_matcher.matches(message.name):\n            return False\n        if not self.args_matcher.matches(message.args):\n            return False\n        return True", "        return (self.obj_matcher.matches(message.obj) and\n            self.name_matcher.matches(message.name) and\n            self.args_matcher.matches(message.args))")])
